@@ -44,6 +44,16 @@ RemoveCached(e) ==
   /\ cidx' = cidx \ {e}
   /\ UNCHANGED <<remotes, conf>>
 
+(* a cache-level removal during which the removal of one ref fails: some of the entity's refs are gone, some are left, the call
+   reports the error and the cache goes on knowing the entity - so that the removal can be repeated, which finishes the job *)
+RemoveCachedFailed(e) ==
+  /\ e \in cexc
+  /\ \E keepL \in BOOLEAN, keepT \in SUBSET {p \in tref : p[2] = e} :
+       /\ (keepL /\ e \in lref) \/ keepT # {}
+       /\ lref' = IF keepL THEN lref ELSE lref \ {e}
+       /\ tref' = {p \in tref : p[2] # e} \cup keepT
+  /\ UNCHANGED <<remotes, cexc, cidx, conf>>
+
 Wipe ==
   /\ lref' = {} /\ tref' = {} /\ cexc' = {} /\ cidx' = {}
   /\ conf' = {k \in conf : SubSeq(k, 1, 8) # "git-bug."}
@@ -54,17 +64,19 @@ Step(via) ==
   /\ (done # <<>> => done[1] = via)                      \* the second step repeats the first (idempotence)
   /\ CASE via = "entity" -> RemoveEntity(T)
        [] via = "cache"  -> RemoveCached(T)
+       [] via = "cacheflaky" -> IF done = <<>> THEN RemoveCachedFailed(T) ELSE RemoveCached(T)
        [] via = "wipe"   -> Wipe
   /\ done' = Append(done, via)
   /\ UNCHANGED c0
 
-Next == \E via \in {"entity", "cache", "wipe"} : Step(via)
+Next == \E via \in {"entity", "cache", "cacheflaky", "wipe"} : Step(via)
 Spec == Init /\ [][Next]_vars
 
 (* ---- properties ---- *)
-Complete == (done # <<>> /\ done[1] \in {"entity", "cache"}) =>
+Removed == (done # <<>> /\ done[1] \in {"entity", "cache"}) \/ (Len(done) = 2 /\ done[1] = "cacheflaky")
+Complete == Removed =>
    /\ T \notin lref /\ \A m \in remotes : <<m, T>> \notin tref
-   /\ (done[1] = "cache" => T \notin cexc /\ T \notin cidx)
+   /\ (done[1] \in {"cache", "cacheflaky"} => T \notin cexc /\ T \notin cidx)
 IsWipe == done' # <<>> /\ done'[1] = "wipe"
 Frame == [][IsWipe \/ \A e \in Others :
              /\ (e \in lref <=> e \in lref')
@@ -77,9 +89,11 @@ WipeClean == (done # <<>> /\ done[1] = "wipe") => (lref = {} /\ tref = {} /\ cex
 
 (* a merge without a new fetch creates the entities that are only remote-tracked; the removed one is not among them *)
 AfterMerge(l, t) == l \cup {p[2] : p \in t}
-StaysRemoved == (done # <<>> /\ done[1] \in {"entity", "cache"}) => T \notin AfterMerge(lref, tref)
+StaysRemoved == Removed => T \notin AfterMerge(lref, tref)
+(* a removal that failed can be repeated: the cache still knows the entity *)
+Repeatable == (Len(done) = 1 /\ done[1] = "cacheflaky") => T \in cexc
 
 SetSeq(S) == SetToSeq(S)
-Emit == Len(done) = 1 =>
+Emit == ((Len(done) = 1 /\ done[1] # "cacheflaky") \/ (Len(done) = 2 /\ done[1] = "cacheflaky")) =>
   PrintT(ToJson([via |-> done[1], remotes |-> SetSeq(remotes), before |-> [lref |-> SetSeq(c0.lref), tref |-> SetSeq(c0.tref), conf |-> SetSeq(c0.conf)], after |-> [lref |-> SetSeq(lref), tref |-> SetSeq(tref), cexc |-> SetSeq(cexc), merged |-> SetSeq(AfterMerge(cexc, tref))]]))
 =============================================================================
